@@ -35,8 +35,8 @@ func genC11(seed uint64, run int, tier string) Scenario {
 		sc.Sub = "C12"
 		if r.IntN(4) == 0 {
 			// sched-hold fault: the dialogue's goroutine is descheduled in front of the write
-			// of the secret for longer than the operation's timeout (the caller sits it out with it)
-			sc.Holds = append(sc.Holds, HoldSpec{Base: "op.sendinteractive", Point: "tr.write.marked", DurNS: int64(Micro(sc.TimeoutOpsUS)) * 13 / 10, Pct: 50})
+			// of the secret until just after the operation's deadline (the caller sits it out with it)
+			sc.Holds = append(sc.Holds, HoldSpec{Base: "op.sendinteractive", Point: "tr.write.marked", DurNS: int64(Micro(sc.TimeoutOpsUS)) * int64(between(r, 100, 108)) / 100, Pct: 50})
 			sc.MarkSecret = true
 		}
 		// half of them escalate inside the on-open hook, as platform definitions do
